@@ -418,6 +418,36 @@ pub fn explore(ctx: &LeafCtx, tier: &str, reps: &[&Report; 5]) {
             a.recompute(&[ROOT, ACC, TO, NULL]);
             push(format!("leafhash-{l}"), a);
         }
+        // arrangement recipes: at one level the four children are hashed in another order than
+        // "running hash inserted at `position` among the siblings in their given order"
+        {
+            let d = (base.v[DEPTH] as usize).min(3);
+            for lvl_mut in 0..d {
+                for perm in crate::mcx::permutations(4).into_iter().skip(1) {
+                    let mut cur = base.leaf_hash();
+                    for lvl in 0..base.v[DEPTH] as usize {
+                        let s = [base.sib(lvl, 0), base.sib(lvl, 1), base.sib(lvl, 2)];
+                        let mut ch: Vec<[u64; 4]> = match base.v[POS + lvl] {
+                            0 => vec![cur, s[0], s[1], s[2]],
+                            1 => vec![s[0], cur, s[1], s[2]],
+                            2 => vec![s[0], s[1], cur, s[2]],
+                            _ => vec![s[0], s[1], s[2], cur],
+                        };
+                        if lvl == lvl_mut {
+                            ch = perm.iter().map(|&i| ch[i]).collect();
+                        }
+                        cur = h(&ch.concat());
+                    }
+                    if cur == base.d4(ROOT) {
+                        continue; // two equal children: same arrangement
+                    }
+                    let mut a = base.clone();
+                    a.set4(ROOT, cur);
+                    a.recompute(&[ROOT, ACC, TO, NULL]);
+                    push(format!("children-order(level {lvl_mut}, {perm:?})"), a);
+                }
+            }
+        }
         // insertion recipes: position interpreted shifted / from the other end
         if base.v[DEPTH] > 0 {
             for (l, fpos) in [("pos+1", 1u64), ("3-pos", 100)] {
